@@ -233,7 +233,7 @@ BUILTIN_NAMES.update({
         FunctionType('super', returns='identity'), # TODO: This is not quite right, should really be parent type
         FunctionType('vars', returns=lambda: DictType([(StrType(), AnyType())])),
         FunctionType('zip', definition=zip_definition),
-        FunctionType('__import__', returns=ModuleType),
+        FunctionType('__import__', returns=lambda: ModuleType('*Unknown', {})),
     ]
 })
 
